@@ -1488,7 +1488,10 @@ class C12(Spec):
 
 class C17(Spec):
     level_text = ('Partial. Proved: C17_repl_escape (an escaped replacement -- link, image, e-mail, URL, HTML tag, entity -- is rendered as its own '
-                  'escaped text minus the backslash, as a finished fragment), with a computed example over all inline kinds. Line-level '
+                  'escaped text minus the backslash, as a finished fragment), with a computed example over all inline kinds; '
+                  'C17_escaped_invocation with C17_parametrised_pattern_skips_simple (in text with no other brace or backslash an escaped macro '
+                  'invocation comes out of macros.render as the invocation without its backslash, defined or not, with no diagnostic, and the '
+                  'second pass cannot pick it up -- for every prefix, suffix and name, through the exact regex semantics). Line-level '
                   'escapes and quotes are decided by the literal-text oracle and correspondence; several element kinds violate the property on '
                   'the unchanged code (known findings).')
     rule = ('element kinds x generated instances x positions (line start, after text, in quotes, in list items) x 1-8 escaped elements, '
